@@ -10,7 +10,7 @@ Lemma all_hst_complete s : In s all_hst.
 Proof. destruct s as [[] [] [] [] []]; vm_compute; tauto. Qed.
 
 Lemma errpaths_all_ok : forallb fn_ok api_functions = true.
-Proof. vm_compute. reflexivity. Qed.
+Proof. vm_cast_no_check (eq_refl true). Qed.
 
 Lemma errpaths_abort_lemma :
   forall f, In f api_functions ->
